@@ -434,7 +434,81 @@ func tableOrigin(p *core.Prog, v ssa.Value, initF *ssa.Function) string {
 	return name
 }
 
+// c02RelayChecksumLifetime: the checksum object of a modified relayed call is
+// not used after it went back to the pool. An item that is entombed stays in
+// the table (as a copy holding the same checksum) for the tombstone period, so
+// either nothing that entombs releases the checksum, or every use of an
+// item's checksum is behind the tombstone test. Each of the two is harmless
+// alone; together a late continuation frame adds into an object that another
+// message is using.
+func c02RelayChecksumLifetime(p *core.Prog, r *core.Report) {
+	mcF := p.Field("", "relayItem", "mutatedChecksum")
+	if mcF == nil {
+		r.Errorf("relayItem.mutatedChecksum does not resolve")
+		return
+	}
+	isMC := func(v ssa.Value) bool {
+		if f, ok := v.(*ssa.Field); ok {
+			return core.FieldOfField(f) == mcF
+		}
+		return core.LoadedField(v) == mcF
+	}
+	var releasedWhileEntombed, usedOnTomb []string
+	nUse := 0
+	for _, f := range p.SrcFuncs {
+		if pkgOf(f) != core.Root {
+			continue
+		}
+		entombs := len(core.CallsIn(f, "relayItems.Entomb")) > 0
+		core.EachInstr(f, func(i ssa.Instruction) {
+			c, ok := i.(ssa.CallInstruction)
+			if !ok {
+				return
+			}
+			if rc, isRel := core.IsCall(i, "Checksum.Release"); isRel && isMC(core.CallArgs(rc)[0]) && entombs {
+				releasedWhileEntombed = append(releasedWhileEntombed, fname(f)+" at "+p.Pos(i.Pos()))
+			}
+			// use: passed on (to the re-stamping helper) or Add/Sum called on it
+			used := false
+			for k, a := range core.CallArgs(c) {
+				if isMC(a) {
+					if _, isRel := core.IsCall(i, "Checksum.Release"); isRel && k == 0 {
+						continue
+					}
+					used = true
+				}
+			}
+			if !used {
+				return
+			}
+			// only items fetched from the table can be tombstones
+			if len(core.CallsIn(f, "relayItems.Get")) == 0 {
+				return
+			}
+			nUse++
+			tombFalse := factsAt(i.Block()).hasBool(func(v ssa.Value) bool {
+				if fl, isF := v.(*ssa.Field); isF {
+					return core.FieldOfField(fl).Name() == "tomb"
+				}
+				fl := core.LoadedField(v)
+				return fl != nil && fl.Name() == "tomb"
+			}, false)
+			if !tombFalse {
+				usedOnTomb = append(usedOnTomb, fname(f)+" at "+p.Pos(i.Pos()))
+			}
+		})
+	}
+	ok := len(releasedWhileEntombed) == 0 || len(usedOnTomb) == 0
+	how := "released by " + strings.Join(releasedWhileEntombed, ", ") + " while the tombstone keeps it; used without the tombstone test by " + strings.Join(usedOnTomb, ", ")
+	good := "no entombing path releases the checksum"
+	if len(releasedWhileEntombed) > 0 {
+		good = "every use is behind the tombstone test"
+	}
+	r.Check(ok && nUse > 0, "C02-R4", "package", "a relayed call's checksum object is not used after an entombing path released it", "-", good, how)
+}
+
 func c02Relay(p *core.Prog, r *core.Report) {
+	c02RelayChecksumLifetime(p, r)
 	f := mustFunc(p, r, "", "Relayer", "updateMutatedCallReqContinueChecksum")
 	if f == nil {
 		return
